@@ -94,6 +94,11 @@ func C13(c *core.Ctx) {
 	}
 	c.Logf("model check: %d distinct states, %.0fs", r.Distinct, r.Wall.Seconds())
 	if !c.Quick() {
+		// vacuity guard: every action of Traversal.tla is taken in the (quick-sized) bounded model
+		covCfg := "SPECIFICATION Spec\nCONSTANTS MinN = 1\n MaxN = 3\n Limits = {0,1}\n MaxFail = 1\n RootSets = 1\nINVARIANTS OnceEach DepsFirst BoundAlways\nCHECK_DEADLOCK TRUE\n"
+		if !c.CoverageGuard("mc_traversal_action_coverage", core.TLCOpts{Module: "MC_Traversal", CfgText: covCfg, Workers: 8, Timeout: 40 * time.Minute, Name: "mccov"}) {
+			return
+		}
 		// N = 4 without failures/roots, and liveness for N <= 3 above
 		cfg4 := "SPECIFICATION Spec\nCONSTANTS MinN = 4\n MaxN = 4\n Limits = {0,2}\n MaxFail = 0\n RootSets = 0\nINVARIANTS OnceEach DepsFirst BoundAlways ReturnAfterAll ResultOK ChanBounded \nCHECK_DEADLOCK TRUE\n"
 		r4, err := c.RunTLC(core.TLCOpts{Module: "MC_Traversal", CfgText: cfg4, Timeout: 60 * time.Minute, Name: "mc4"})
